@@ -181,12 +181,6 @@ Definition judge_detail (c : case) : bool * bool * list bool := (agree c, monito
 
 (** ** Soundness of the monitor for the model *)
 
-(** Well-formedness: condition types in status.conditions are pairwise distinct. Without it
-    the clause "stale condition never passes" is false for the model and for the code
-    (ProbeProofs.stale_condition_any_entry_refuted). *)
-Definition wf_obj (o : json) : bool :=
-  match conditions_of o with Some cs => types_unique cs | None => true end.
-
 Lemma ref_lookup_nested v path : ref_lookup v path = None <-> (forall w, nested_field v path <> NFound w).
 Proof.
   revert v; induction path as [|k r IH]; intros v; cbn.
@@ -260,16 +254,14 @@ Section Sound.
     now destruct (og_stale o).
   Qed.
 
-  Lemma k_stale_cond_group q o : wf_obj o = true -> k_stale_cond q o (group_result ce q o) = true.
+  Lemma k_stale_cond_group q o : k_stale_cond q o (group_result ce q o) = true.
   Proof.
-    intros Hwf. unfold k_stale_cond, group_result. destruct (selects q o); [|reflexivity]. cbn [andb fst].
+    unfold k_stale_cond, group_result. destruct (selects q o); [|reflexivity]. cbn [andb fst].
     destruct (existsb _ (leaves (o_probes q))) eqn:Ex; [|reflexivity]. cbn.
     apply existsb_exists in Ex. destruct Ex as (l & Hl & Est). destruct l as [t s| |]; try discriminate.
     rewrite (leaf_fails_passes_one q o (LCond t s) Hl); [reflexivity|].
-    cbn. unfold cond_probe. unfold cond_stale_any in Est. unfold wf_obj in Hwf. unfold conditions_of in *.
-    destruct (nested_field o ["status"; "conditions"]) as [[| | | | |cs|]| |]; try discriminate.
-    pose proof (cond_loop_stale_unique (generation o) t s cs Hwf Est) as H.
-    destruct (cond_loop (generation o) t s cs); [reflexivity|congruence].
+    unfold cond_stale_any in Est. destruct (conditions_of o) as [cs|] eqn:Ec; [|discriminate].
+    cbn. now rewrite (cond_probe_stale o t s cs Ec Est).
   Qed.
 
   Lemma k_fe_missing_group q o : k_fe_missing q o (group_result ce q o) = true.
@@ -296,9 +288,9 @@ Section Sound.
     apply cel_leaves_ok_b. now destruct (parse_group_inr _ _ _ _ Hg).
   Qed.
 
-  Theorem monitor_sound qs o : wf_obj o = true -> monitor (qs, o, tbl, model qs o tbl) = true.
+  Theorem monitor_sound qs o : monitor (qs, o, tbl, model qs o tbl) = true.
   Proof.
-    intros Hwf. unfold monitor, clauses, model. destruct (parse cc ce qs) as [[i e]|p] eqn:Ep.
+    unfold monitor, clauses, model. destruct (parse cc ce qs) as [[i e]|p] eqn:Ep.
     - (* Parse failed: there is a reason *)
       cbn. rewrite andb_true_r. apply negb_true_iff.
       destruct (cel_all_ok tbl qs && forallb selector_ok qs) eqn:E; [|reflexivity]. exfalso.
@@ -350,7 +342,7 @@ Lemma ex_stale_condition_and_missing_field :
   exists p, parse ex_cc ex_ce ex_probes = inr p
             /\ In (LCond "Available" "True") (leaves (o_probes ex_q))
             /\ In (LFE ".status.a" ".status.b") (leaves (o_probes ex_q))
-            /\ conditions_of (ex_object 2 1) = Some ([] ++ ex_cond 1 :: [])
+            /\ conditions_of (ex_object 2 1) = Some [ex_cond 1]
             /\ stale_entry (generation (ex_object 2 1)) "Available" (ex_cond 1) = true
             /\ field_present (ex_object 2 1) ".status.b" = false
             /\ p (ex_object 2 1) = (false, [RCondOutdated; RFieldMissingB; RCelFalse]).
@@ -372,5 +364,6 @@ Lemma ex_monitor_rejects :
                 [(false, [RCondOutdated; RFieldMissingB; RCelFalse]); (false, [RCondOutdated; RFieldMissingB; RCelFalse])]
                 true) = false
   /\ monitor (ex_probes, ex_object 1 2, ex_tbl, ORun true [] [(true, [])] true) = false
-  /\ wf_obj (ex_object 1 2) = true.
+  (* the former witness of the duplicate-type defect (fixed by 9b2e4f3): passing it is rejected *)
+  /\ monitor (dup_witness_probes, dup_witness_object, [], ORun true [] [(true, [])] true) = false.
 Proof. repeat split; reflexivity. Qed.
